@@ -77,7 +77,7 @@ def _rest(n, v, t, lo, cs, icvn, excluded, type_list):
         if not any(type_ok(v, x, cs, icvn) and (x != 'DT' or len(v) == 12) and (x != 'TM' or len(v) == 4) for x in type_list):
             out.add('9' if 'TM' in type_list else '8')
     if n.regex:
-        if not re.search(n.regex, v, re.S):
+        if not re.fullmatch(n.regex, v, re.S):      # the declared pattern describes the value, not a part of it
             out.add('7')
     return out
 
